@@ -26,6 +26,8 @@ type propDef struct {
 
 var props = map[string]propDef{}
 
+var wazeroProps = map[string]bool{"C01": true, "C05": true, "C07": true, "C16": true}
+
 func init() {
 	props["C01"] = propDef{gen: GenC01, chk: func() Checker { return &stratChecker{prop: "C01", fileInv: true} }}
 	props["C03"] = propDef{gen: GenC03, chk: func() Checker { return &c03Checker{prop: "C03"} }}
@@ -126,6 +128,7 @@ func TestSim(t *testing.T) {
 			break
 		}
 		var s *Scenario
+		wazeroPm, _ := strconv.Atoi(os.Getenv("SIM_WAZERO_PM"))
 		func() {
 			defer func() {
 				if r := recover(); r != nil {
@@ -133,6 +136,10 @@ func TestSim(t *testing.T) {
 					s = nil
 				}
 			}()
+			if wazeroPm > 0 && int(H(seed, "wazero?")%1000) < wazeroPm && wazeroProps[prop] {
+				s = GenWazero(seed, prop)
+				return
+			}
 			s = pd.gen(seed)
 		}()
 		if s == nil {
